@@ -1149,6 +1149,13 @@ func (e *executor) executeGroupBy(ctx context.Context, index string, c *pql.Call
 	}
 	results, _ := other.([]GroupCount)
 
+	// Offset and limit select from the merged result of the whole cluster. A node
+	// executing its part of a forwarded GroupBy returns its leading limit+offset
+	// groups untrimmed; skipping the offset here as well would drop groups twice.
+	if opt != nil && opt.Remote {
+		return results, nil
+	}
+
 	// Apply offset.
 	if offset, hasOffset, err := c.UintArg("offset"); err != nil {
 		return nil, err
